@@ -16,7 +16,8 @@ EXPLANATION = (
     "decryption key is the interpolation result; (R4) the J stored in a share is the unmodified send_mac output; (R5) Sharks::recover stores shares in collection order and interpolates a window starting at the first stored share, so the share that supplies the ciphertext always contributes its own point (alterations of its x / y change the key); the share collection reaches Sharks::recover completely and in the caller's order.  "
     "(R6) the Shamir share decoder takes x and every y_i from complete consecutive 24-byte windows through the canonical decoder and refuses out-of-range elements, so no byte of the encoded point / values is ignored.  "
     "NOT decided: MAC unforgeability; the behaviour for specific byte faults (follows from R1-R3 only under the "
-    "cryptographic assumption).")
+    "cryptographic assumption)."
+    "  Also (R7 = C16.R7) the threshold handed to the Shamir layer when sharing and when recovering is the MAC-covered threshold, unmodified and full width.")
 ASSUMPTIONS = ["strobe_rs::Strobe::recv_mac returns Ok iff the MAC matches the transcript (trusted)"]
 TRUSTED = []
 
@@ -219,6 +220,12 @@ def run(ctx):
     from . import c08
     c08.shamir_reader_rules(ctx, "C05.R6", "C05.R6")
     ctx.floor("C05.R6", 4)
+    # the threshold authenticated by the MAC is the one the interpolation runs under, unmodified and full width, when
+    # sharing and when recovering (a narrowed or clamped threshold changes the polynomial degree: alterations of the
+    # first share's point are then no longer reflected in the recovered key) - shared with C16.R7
+    from .c16 import threshold_unmodified
+    threshold_unmodified(ctx, "C05.R7", ("adss::Commune::share", "adss::recover"))
+    ctx.floor("C05.R7", 2)
     ctx.floor("C05.R1", 3)
     ctx.floor("C05.R2", 8)
     ctx.floor("C05.R3", 7)
